@@ -1297,6 +1297,7 @@ pub fn oracles_for(prop: &str) -> Oracles {
         "C05" => Oracles { projection: false, text: false, output: false, teardown: false, steps: false, bt: true, signals: false, dregs: false },
         "C11" => Oracles { projection: true, text: true, output: true, teardown: true, steps: false, bt: false, signals: false, dregs: false },
         "C14" => Oracles { projection: false, text: false, output: false, teardown: true, steps: false, bt: false, signals: false, dregs: true },
+        "C18" => Oracles { projection: true, text: true, output: true, teardown: false, steps: false, bt: true, signals: false, dregs: false },
         "C10" => Oracles { projection: true, text: true, output: true, teardown: false, steps: false, bt: false, signals: true, dregs: false },
         "C02" => Oracles { projection: false, text: true, output: true, teardown: false, steps: false, bt: false, signals: false, dregs: false },
         _ => Oracles { projection: true, text: true, output: true, teardown: true, steps: true, bt: true, signals: true, dregs: false },
